@@ -45,7 +45,7 @@ EXPECTED_PROBES = ["multi_chunk_array_written", "zero_dim_array", "empty_array_o
                    "overwrite_existing_zip", "overwrite_existing_dir", "auto_store_suffix_appended",
                    "other_process_restart", "listing_order_nonidentity", "completion_order_nonfifo",
                    "kind_tensor", "kind_module", "kind_obj_in_container", "kind_npscalar",
-                   "kind_hybrid_module", "dot_prefixed_name"]
+                   "kind_hybrid_module", "dot_prefixed_name", "kind_qvector", "kind_qdataset"]
 
 
 def setup():
@@ -116,6 +116,8 @@ def _probe_graph(spec, probes):
         elif k == "set":
             bump(probes, "set_roundtrip")
         elif k in ("tensor", "module", "npscalar"):
+            bump(probes, f"kind_{k}")
+        elif k in ("qvector", "qdataset"):
             bump(probes, f"kind_{k}")
         elif k == "obj" and s.get("cls") == "Hybrid":
             bump(probes, "kind_hybrid_module")
